@@ -125,8 +125,9 @@ def run(tier):
                 (s0 + 8, dict(nd=2, np=2, copies=2), "adds", (), 1, 0, 0, 4)]
     else:
         jobs = []
-        shapes = [dict(nd=2, np=2, copies=2), dict(nd=3, np=1, copies=3, splits=[2]), dict(nd=2, np=3, copies=1), dict(nd=4, np=2, copies=4),
-                  dict(nd=1, np=1, copies=2), dict(nd=3, np=6, copies=2), dict(nd=2, np=2, copies=2, splits=[1, 3]),
+        # (sized to end within about half an hour)
+        shapes = [dict(nd=2, np=2, copies=2), dict(nd=3, np=1, copies=3, splits=[2]), dict(nd=2, np=3, copies=1),
+                  dict(nd=1, np=1, copies=2), dict(nd=2, np=2, copies=2, splits=[1, 3]),
                   dict(nd=3, np=2, copies=2, hash_size=8)]
         for i, sh in enumerate(shapes):
             for pending in ("adds", "mixed", "holes", "deletes", "emptydisk"):
